@@ -38,11 +38,13 @@ Proof.
   - vm_compute. reflexivity.
   - vm_compute. reflexivity.
 Qed.
+Print Assumptions C08_delivery_instance.
 
 Example C08_delivery_instance_intermediate :
   read_stream [[238; 238]; [238]; [238; 4; 0]; [0; 0; 9; 8; 7]; []; [6; 0; 0; 0]; [0]] =
     Some {| d_mode := Some Intermediate; d_msgs := [[9; 8; 7; 6]; []]; d_end := EEof |}.
 Proof. vm_compute. reflexivity. Qed.
+Print Assumptions C08_delivery_instance_intermediate.
 
 (* Writer and reader together: what mode.New + WriteMsg* put on the wire comes out of Detect + ReadMsg*
    on the other side unchanged, under every segmentation. *)
@@ -112,6 +114,7 @@ Example C08_format_boundary :
   write_header Intermediate 4294967295 = Ok [255; 255; 255; 255] /\ write_header Intermediate 4294967296 = Err /\
   write_header Abridged 16777216 = Ok [127; 0; 0; 64] /\ write_header Intermediate 16777219 = Ok [3; 0; 0; 1].
 Proof. vm_compute. repeat split; reflexivity. Qed.
+Print Assumptions C08_format_boundary.
 
 (* A four-byte frame is surfaced as the signed 32-bit little-endian code it carries, whatever the
    segmentation and whatever follows it; the connection stays positioned behind the frame. *)
@@ -136,6 +139,7 @@ Example C08_errcode_404 :
   tr_stream Intermediate [[4; 0; 0]; [0; 108; 254; 255; 255; 4; 0; 0; 0; 83]; [254; 255; 255]] =
     Some ([TCode (-404)%Z; TCode (-429)%Z], EEof).
 Proof. vm_compute. repeat split; reflexivity. Qed.
+Print Assumptions C08_errcode_404.
 
 (* End of the stream between frames is reported as EOF by Detect, by ReadMsg of either mode and by
    transport.ReadMsg - never as a message (the result is [Fail EEof], not [Got _]). *)
@@ -155,6 +159,7 @@ Example C08_eof_instance :
   (* a stream that ends inside a frame is an error of the other kind, not EOF, not a message *)
   read_stream [[239; 2; 1; 2]; [3]] = Some {| d_mode := Some Abridged; d_msgs := []; d_end := EOther |}.
 Proof. vm_compute. repeat split; reflexivity. Qed.
+Print Assumptions C08_eof_instance.
 
 (* The client's reader over a whole connection: the frames a peer wrote in the connection's mode come
    out of transport.ReadMsg as exactly those payloads, in order, followed by end-of-stream, under every
